@@ -1,14 +1,17 @@
 """C05: suggestions depend only on the surviving typed text, not on typing history."""
 import obl_assembly as A
+import obl_phonetic
 
 
 def run(c):
     import clauses
     c.only_clauses = clauses.OWN["C05"]
-    if A.validate_assembly_concrete(c):
-        ct = A.conv_table_for([p for w in A.WRAPPERS_QUICK for p in w])
-        A.obl_warm(c, ct, thorough=(c.tier == "thorough"), budget_s=1500)
-    c.assume("every proper prefix of the word part was the word part earlier (typed text only changes at its end), so the memo holds "
-             "the prefixes in a warm and in a fresh context alike: argued from the push/pop discipline of the buffer, not solver-checked")
+    A.validate_assembly_concrete(c)     # a mismatch makes the run inconclusive; the obligations still run, and what they find is reported only after native confirmation
+    ct = A.conv_table_for([p for w in A.WRAPPERS_QUICK for p in w])
+    A.obl_warm(c, ct, thorough=(c.tier == "thorough"), budget_s=1500)
+    q = c.tier == "quick"
+    obl_phonetic.obl_phonetic_glue(c, 2 if q else 3, budget_s=900)      # carries `memo_entries_survive_the_event`: no key / backspace / commit / finish drops a memo entry, whatever the memo's size
+    c.assume("every proper prefix of the word part that ends in a letter or digit was the word part earlier (typed text only changes at its end) and "
+             "no event drops a memo entry (glue clause), so the memo holds the prefixes in a warm and in a fresh context alike")
     c.outside("isolation between two contexts in one process (absence of shared statics in riti and its dependencies is a whole-program "
               "fact, not a bounded input-output property); purity of the regex/dictionary search (oracle contract)")
